@@ -34,6 +34,8 @@ def check(ctx: Ctx, col: Collector, tier: str) -> None:
              "mapped one-to-one in constructor order", "abstract interpretation of to_dict/from_dict", floor=14)
     col.spec("C19.NESTED-PARSE", "nested type fields are rebuilt through AbstractType.from_dict; frozenset fields "
              "as frozenset", "field-annotation directed check on the abstract from_dict result", floor=8)
+    col.spec("C19.VALUE-PRESERVE", "from_dict hands the serialised value of a field on unchanged (or through wrappers that "
+             "keep every element, its multiplicity and order)", "wrapper chain between d[key] and the constructor argument", floor=10)
     col.spec("C19.EQ-HASH", "hash depends only on what equality compares; order-insensitive equality pairs with "
              "order-insensitive hashing; isinstance guard", "dataclass method resolution + path analysis of __eq__",
              floor=14)
@@ -141,6 +143,22 @@ def check(ctx: Ctx, col: Collector, tier: str) -> None:
         else:
             col.ok("C19.KEY-AGREEMENT", key, repo.loc(tm, from_fi.node),
                    f"{k}: written keys {sorted(written)} == read keys, fields {cmp_fields}", nontrivial=bool(cmp_fields))
+        # VALUE-PRESERVE
+        ALLOWED = {"list", "tuple", "AbstractType.from_dict", ".copy", "elem", "frozenset" , "set"}
+        for f, ann, _ in fields:
+            if f not in cmp_fields or f not in arg_of_field:
+                continue
+            av = arg_of_field[f]
+            wrappers = [x.func for x in walk_av(av) if isinstance(x, App)]
+            setlike = ann.startswith(("frozenset", "set"))
+            bad = [w for w in wrappers if w.split(".")[-1] not in {a.split(".")[-1] for a in ALLOWED} or (w in ("frozenset", "set") and not setlike)]
+            vkey = f"{TYPES_MOD}::{k}.from_dict::{f}::preserved"
+            if bad:
+                col.bad("C19.VALUE-PRESERVE", vkey, repo.loc(tm, from_fi.node), f"argument {av!r}",
+                        f"{k}.from_dict passes {f!r} through {bad}: elements, their multiplicity or order can change, so "
+                        f"from_dict(to_dict(t)) != t for some t")
+            else:
+                col.ok("C19.VALUE-PRESERVE", vkey, repo.loc(tm, from_fi.node), f"{f}: {av!r}", nontrivial=bool(wrappers))
         # NESTED-PARSE
         for f, ann, _ in fields:
             if f not in cmp_fields:
